@@ -60,21 +60,23 @@ WantC09(G) == [omega |-> CliqueNumber(G), alpha |-> IndependenceNumber(G), chi |
 AllMinusOne(s) == \A i \in 1..Len(s) : s[i] = -1
 SetOfLists(ls) == { SeqRange(x) : x \in SeqRange(ls) }
 Ascending(s) == \A i \in 1..(Len(s) - 1) : s[i] < s[i + 1]
+(* the definitional values are computed on the base graph G and carried to the relabelled graph: vertex i of the variant is vertex pi[i+1] of G *)
+Pull(pi, S) == { i \in 0..(Len(pi) - 1) : pi[i + 1] \in S }
 JudgeC10Var(G, want, v) ==
-    LET H == Relabel(G, v.pi)  r == v.r  n == H.n IN
+    LET r == v.r  n == G.n  pi == v.pi IN
     IF Crashed(v.res) THEN v.res
-    ELSE IF \E a, b \in Verts(n) : r.dist[a + 1][b + 1] # Dist(H, a, b) THEN "Distance differs from the shortest-path definition"
-    ELSE IF Len(r.ecc) # n \/ (IF want.conn THEN \E a \in Verts(n) : r.ecc[a + 1] # Ecc(H, a) ELSE ~AllMinusOne(r.ecc)) THEN "Eccentricity differs from the definition"
+    ELSE IF \E a, b \in Verts(n) : r.dist[a + 1][b + 1] # want.D[pi[a + 1] + 1][pi[b + 1] + 1] THEN "Distance differs from the shortest-path definition"
+    ELSE IF Len(r.ecc) # n \/ (IF want.conn THEN \E a \in Verts(n) : r.ecc[a + 1] # want.ecc[pi[a + 1] + 1] ELSE ~AllMinusOne(r.ecc)) THEN "Eccentricity differs from the definition"
     ELSE IF r.diam # want.diam THEN "Diameter differs from the definition"
     ELSE IF r.rad # want.rad THEN "Radius differs from the definition"
     ELSE IF r.girth # want.girth THEN "Girth differs from the definition"
-    ELSE IF \E a \in Verts(n) : ~Ascending(r.comp[a + 1]) \/ SeqRange(r.comp[a + 1]) # Component(H, a) THEN "ConnectedComponent is not the (sorted) component"
-    ELSE IF Len(r.comps) # Cardinality(Components(H)) \/ SetOfLists(r.comps) # Components(H) \/ \E c \in SeqRange(r.comps) : ~Ascending(c) THEN "ConnectedComponents are not exactly the components"
-    ELSE IF Len(r.blocks) # Cardinality(Blocks(H)) \/ SetOfLists(r.blocks) # Blocks(H) \/ \E c \in SeqRange(r.blocks) : ~Ascending(c) THEN "BiconnectedComponents are not exactly the blocks (each once, sorted)"
-    ELSE IF Len(r.arts) # Cardinality(CutVertices(H)) \/ SeqRange(r.arts) # CutVertices(H) THEN "articulation vertices differ from the cut vertices"
+    ELSE IF \E a \in Verts(n) : ~Ascending(r.comp[a + 1]) \/ SeqRange(r.comp[a + 1]) # Pull(pi, want.compOf[pi[a + 1] + 1]) THEN "ConnectedComponent is not the (sorted) component"
+    ELSE IF Len(r.comps) # Cardinality(want.comps) \/ SetOfLists(r.comps) # { Pull(pi, C) : C \in want.comps } \/ \E c \in SeqRange(r.comps) : ~Ascending(c) THEN "ConnectedComponents are not exactly the components"
+    ELSE IF Len(r.blocks) # Cardinality(want.blocks) \/ SetOfLists(r.blocks) # { Pull(pi, B) : B \in want.blocks } \/ \E c \in SeqRange(r.blocks) : ~Ascending(c) THEN "BiconnectedComponents are not exactly the blocks (each once, sorted)"
+    ELSE IF Len(r.arts) # Cardinality(want.cuts) \/ SeqRange(r.arts) # Pull(pi, want.cuts) THEN "articulation vertices differ from the cut vertices"
     ELSE IF r.cycles # want.cycles THEN "NumberOfCycles differs from the number of cycles of each length"
-    ELSE IF \E i \in 1..Len(r.indcycles) : r.indcycles[i].counts # [L \in 0..n |-> IF L >= 3 /\ L <= want.capC[i] THEN want.ic[L + 1] ELSE 0] THEN "NumberOfInducedCycles differs from the definition"
-    ELSE IF \E i \in 1..Len(r.indpaths) : r.indpaths[i].counts # [L \in 0..(n - 1) |-> IF L = 0 \/ L <= want.capP[i] THEN want.ip[L + 1] ELSE 0] THEN "NumberOfInducedPaths differs from the definition"
+    ELSE IF \E i \in 1..Len(r.indcycles) : r.indcycles[i].counts # [k \in 1..(n + 1) |-> IF k - 1 >= 3 /\ k - 1 <= want.capC[i] THEN want.ic[k] ELSE 0] THEN "NumberOfInducedCycles differs from the definition"
+    ELSE IF \E i \in 1..Len(r.indpaths) : r.indpaths[i].counts # [k \in 1..n |-> IF k = 1 \/ k - 1 <= want.capP[i] THEN want.ip[k] ELSE 0] THEN "NumberOfInducedPaths differs from the definition"
     ELSE ""
 (* maxLength < 0 or beyond the largest possible length means no bound *)
 CapC(n, ml) == IF ml < 0 \/ ml > n THEN n ELSE ml
@@ -82,12 +84,15 @@ CapP(n, ml) == IF ml < 0 \/ ml > n - 1 THEN n - 1 ELSE ml
 WantC10(G, e) ==
     LET n == G.n  conn == IsConnected(G) IN
     [conn |-> conn,
+     D |-> [a \in 1..n |-> [b \in 1..n |-> Dist(G, a - 1, b - 1)]],
+     ecc |-> [a \in 1..n |-> IF conn THEN Ecc(G, a - 1) ELSE -1],
+     compOf |-> [a \in 1..n |-> Component(G, a - 1)], comps |-> Components(G), blocks |-> Blocks(G), cuts |-> CutVertices(G),
      diam |-> IF n = 0 THEN 0 ELSE IF conn THEN Max({ Ecc(G, v) : v \in Verts(n) }) ELSE -1,
      rad  |-> IF n = 0 THEN 0 ELSE IF conn THEN Min({ Ecc(G, v) : v \in Verts(n) }) ELSE -1,
      girth |-> Girth(G),
-     cycles |-> [L \in 0..n |-> IF L >= 3 THEN NumCycles(G, L) ELSE 0],
-     ic |-> [L \in 0..n |-> NumInducedCycles(G, L)],
-     ip |-> [L \in 0..(n - 1) |-> NumInducedPaths(G, L)],
+     cycles |-> CycleVec(G),
+     ic |-> [k \in 1..(n + 1) |-> NumInducedCycles(G, k - 1)],
+     ip |-> [k \in 1..n |-> NumInducedPaths(G, k - 1)],
      capC |-> [i \in 1..Len(e.mls) |-> CapC(n, e.mls[i])],
      capP |-> [i \in 1..Len(e.mls) |-> CapP(n, e.mls[i])]]
 
